@@ -39,7 +39,7 @@ CORE_NAMES = {
     142: "C08: conflicting address claim was not (only) reported to the conflict delegate", 143: "C08: name of a left/reclaimable member could not be reused from a new address",
     144: "C08: Leave did not record the node as left", 145: "C08: departure broadcast is not the node's own leave message",
     146: "C08: the leaver queued an alive message newer than its departure",
-    147: "C08: an accepted departure/death was not recorded at its incarnation and state (left vs failed)",
+    147: "C01/C08: an accepted departure/death was not recorded at its incarnation and state (left vs failed)",
     150: "C18: record with an address outside the allow-list", 151: "C18: alive from a disallowed source had an effect",
     152: "C18: event announced an address outside the allow-list", 153: "C18: Members() lists an address outside the allow-list",
     160: "C06: suspicion timer registered iff suspect is broken", 161: "C06: declared dead before the minimum / still suspect after the maximum timeout",
@@ -51,7 +51,7 @@ FAMILIES["core"] = {
     "harness": COMMON + ["zz_vf_core_test.go"], "test": "TestVfCore",
     "n": {"quick": 1200, "thorough": 30000},
     "codes": [(100, 109, ["C01", "C02", "C07", "C08", "C18", "C20"]), (110, 111, ["C01"]), (112, 112, ["C01", "C03"]), (113, 119, ["C01"]), (120, 129, ["C02"]), (130, 139, ["C07"]),
-              (140, 149, ["C08"]), (150, 159, ["C18"]), (160, 169, ["C06"]), (170, 179, ["C09"])],
+              (140, 146, ["C08"]), (147, 147, ["C08", "C01"]), (148, 149, ["C08"]), (150, 159, ["C18"]), (160, 169, ["C06"]), (170, 179, ["C09"])],
     "code_names": CORE_NAMES,
     "assumptions": ["suspicionTimeout / remainingSuspicionTime (float64 log) enter the model as the values the real functions returned (table per case, n <= 10 nodes)",
                     "allow-list membership of the test addresses is computed by the harness with net.IPNet.Contains, independently of Config.IPAllowed",
